@@ -72,7 +72,7 @@ def all_cases(tier, seed=0):
     for t in range(256):
         cs.append(("get_breeze_state", dict(tb, target=t)))
         cs.append(("get_breeze_state", dict(tb, target=t, temp_tenths=(t * 257) & 0xFFFF, mode="heat", swing=True)))
-    rids = ["E", "EL", "ELE", "ELEC", "ELEC7", "ELEC70", "ELEC702", "ELEC7022", "ZM079055", "DLK22", "0", "12345678", "A1", "zm079065", "X_y-9.z"]
+    rids = ["E", "EL", "ELE", "ELEC", "ELEC7", "ELEC70", "ELEC702", "ELEC7022", "ZM079055", "DLK22", "0", "12345678", "A1", "zm079065", "X_y-9.z", "ELEC70 ", " ELEC70", " ", "A B", "\tX9", "Z\n", "  ZM  "]
     for r in rids:
         cs.append(("get_breeze_state", dict(tb, remote=r)))
         cs.append(("get_breeze_state", dict(tb, remote=r, on=False, mode="auto", fan="high", swing=True)))
